@@ -161,6 +161,8 @@ def work_captured(item):
             text = fn(case["desc"], *call_args, graph=True, **kw)
         except Exception as e:  # noqa: BLE001
             res["status"] = harness.classify_exception(e)
+            if "failed to compile" in str(e):
+                res["status"], res["problems"] = "violation?", ["the generated code does not compile: " + str(e).splitlines()[-1][:200]]
             return res
     if not cap.records:
         res["status"] = "cache-hit"  # compiled earlier in this worker: nothing new to compare
@@ -406,8 +408,14 @@ if SPEC.get("adapter"):
     fn = einx.numpy.adapt_numpylike_reduce(base) if SPEC["adapter"] == "reduce" else einx.numpy.adapt_numpylike_elementwise(base)
     kw["scale"] = eval(SPEC["option"])
     print("adapted user function, option scale=%s" % SPEC["option"])
-with graphs.Capture() as cap:
-    text = fn(SPEC["desc"], *args, graph=True, **kw)
+try:
+    with graphs.Capture() as cap:
+        text = fn(SPEC["desc"], *args, graph=True, **kw)
+except Exception as e:
+    if "failed to compile" in str(e):
+        print(str(e)[-1500:])
+        print("REPRODUCED: the code generated for this call is not valid Python"); sys.exit(1)
+    raise
 rec = cap.records[-1]
 print(text)
 try:
@@ -476,6 +484,14 @@ def main():
     for i in range(0, len(seq_pool) - 2, 2):
         k = 2 if i % 4 == 0 else 3
         seq_items.append((seq_pool[i : i + k], [2, 3, 5][:k], timeout_ms))
+    # many variables in one generated function (names beyond 'z': 'aa', 'ab', ... must stay valid identifiers)
+    from vlib.desc import Ax, Cat, show_op
+
+    for n_in in (30, 46, 60):
+        axs = [Ax(f"x{i}", 1 + (i % 2)) for i in range(n_in)]
+        ins_m = [(a,) for a in axs]
+        out_m = (Cat(tuple(axs)),)
+        cap_items.append((family._case("id", "id", show_op(ins_m, [out_m]), ins_m, [out_m], {}, tags={"many-inputs"}), timeout_ms, "plain"))
     rnd_items = [(seed * 1000003 + i, MAX_NODES[tier], timeout_ms) for i in range(N_RANDOM[tier])]
     res_cap = runner.pmap(work_captured, cap_items, chunksize=4)
     res_rnd = runner.pmap(work_random, rnd_items, chunksize=8)
